@@ -652,6 +652,15 @@ fn alphabet() -> Vec<char> {
     a
 }
 
+/// the full alphabet: every ASCII character (control characters included: a parser that folds case by bit
+/// operations can map them onto symbols or dashes) and non-ASCII characters whose Unicode case mappings are ASCII
+/// letters (KELVIN SIGN -> k, LONG S -> S, DOTLESS I -> I, FULLWIDTH A)
+fn alphabet_full() -> Vec<char> {
+    let mut a: Vec<char> = (0u8..=127).map(|b| b as char).collect();
+    a.extend(['é', '\u{212A}', '\u{17F}', '\u{131}', '\u{FF21}']);
+    a
+}
+
 /// All single deviations of a canonical text (deduplicated, canonical text itself excluded
 /// unless a deviation reproduces it — that happens for "move the dash back where it was",
 /// which is dropped, too).
@@ -972,7 +981,9 @@ fn main() {
         std::process::exit(replay(&path));
     }
     let ctx = Ctx::new("C16", tier, tier.pick(120, 1200));
-    let alpha = alphabet();
+    let alpha_full = alphabet_full();
+    // thorough: every deviation family uses the full alphabet
+    let alpha = if tier == Tier::Thorough { alphabet_full() } else { alphabet() };
     let mut notes: Vec<String> = vec![];
 
     // ---- E1a: all byte strings of length <= 2
@@ -1046,7 +1057,8 @@ fn main() {
         let n = b.len();
         let triple = *b == vec![0u8; n] || *b == vec![0xffu8; n] || b.iter().enumerate().all(|(k, x)| *x as usize == k + 1);
         let all = tier == Tier::Thorough || n <= 1 || triple;
-        check_origin_single(b, &alpha, "E3-single", all, rep);
+        // quick: the full alphabet (all of ASCII) on the short and the all-00 / all-ff / ascending principals
+        check_origin_single(b, if all { &alpha_full } else { &alpha }, "E3-single", all, rep);
     });
     rep.merge(r);
 
@@ -1100,7 +1112,7 @@ fn main() {
     let code = finish(
         &ctx,
         rep,
-        "E1: every byte string of length <= 2 and a structured family (all-00, all-ff, 1,2,3.., one position in {00,01,7f,80,fe,ff} over all-00 / all-55) for each length 0..=29 through all constructors, printers, parsers, serde JSON, a minimal non-human-readable serde format, candid Encode!/Decode!/IDLArgs; the same family for lengths 30..=40, and all-00 / all-ff / ascending strings of the lengths where an 8- or 16-bit length wraps (126..=130, 255..=286, 511..=542, 65535..=65566), must be rejected by every constructor (from_slice: documented panic), by the wire parser and as correctly checksummed text. E3: for every canonical text of the reduced set all single replacements / insertions over 67 characters, deletions, dash moves, regroupings, truncations (prefixes and suffixes), first-group case masks, all-upper-case (thorough: pairs of replacements for length <= 1, single deviations for all length-2 principals): accepted iff the R7 parser accepts, with the same principal. states = distinct principals + distinct texts per origin; transitions = subject calls; non-trivial = cases the oracle accepts (principal or text).",
+        "E1: every byte string of length <= 2 and a structured family (all-00, all-ff, 1,2,3.., one position in {00,01,7f,80,fe,ff} over all-00 / all-55) for each length 0..=29 through all constructors, printers, parsers, serde JSON, a minimal non-human-readable serde format, candid Encode!/Decode!/IDLArgs; the same family for lengths 30..=40, and all-00 / all-ff / ascending strings of the lengths where an 8- or 16-bit length wraps (126..=130, 255..=286, 511..=542, 65535..=65566), must be rejected by every constructor (from_slice: documented panic), by the wire parser and as correctly checksummed text. E3: for every canonical text of the reduced set all single replacements / insertions over 67 characters (over all 128 ASCII characters and 5 non-ASCII ones for the principals of length <= 1 and the all-00 / all-ff / ascending ones; thorough: everywhere), deletions, dash moves, regroupings, truncations (prefixes and suffixes), first-group case masks, all-upper-case (thorough: pairs of replacements for length <= 1, single deviations for all length-2 principals): accepted iff the R7 parser accepts, with the same principal. states = distinct principals + distinct texts per origin; transitions = subject calls; non-trivial = cases the oracle accepts (principal or text).",
         &[
             "R7 (refmodel::hash: CRC32 IEEE, RFC 4648 base32 lower-case without padding, groups of five) is a correct reading of the IC interface specification's textual representation of principals; a second local classifier agrees with it on every text examined",
             "'equal up to ASCII case' means: the text is ASCII and its ASCII-lower-case form is byte-identical to the canonical text",
